@@ -175,12 +175,49 @@ Qed.
 Theorem gfinish_is_model O o s exc : gfinish O o s exc = finish O o s exc.
 Proof. unfold gfinish, finish. rewrite gen_set_cookie_is_model. reflexivity. Qed.
 
+(* ------------------------------------------------------------------ the request's callback queue *)
+Lemma gen_add_cb_is_model q c : gen_add_cb q c = q ++ [c].
+Proof. unfold gen_add_cb. reflexivity. Qed.
+
+Lemma gen_process_cbs_is_model {A} (call : cb -> A -> A) q : forall a,
+  gen_process_cbs call q a = fold_left (fun a c => call c a) q a.
+Proof. induction q as [|c q IH]; intros a; [reflexivity|]. cbn [gen_process_cbs fold_left]. apply IH. Qed.
+
+Lemma fold_add_others O o s exc n : forall q f,
+  fold_left (fun a c => call_cb O o s exc c a) (add_others n q) f = fold_left (fun a c => call_cb O o s exc c a) q f.
+Proof.
+  induction n as [|n IH]; intros q f; [reflexivity|].
+  cbn [add_others]. rewrite IH, gen_add_cb_is_model, fold_left_app. reflexivity.
+Qed.
+
+(* whatever else the application registered, before or after: the session's callback runs exactly once iff the
+   session is dirty, and nothing else touches the cookie *)
+Theorem gfinish_q_is_model O o s exc n : gfinish_q O o s exc n = finish O o s exc.
+Proof.
+  unfold gfinish_q, req_queue. rewrite gen_process_cbs_is_model, fold_add_others.
+  unfold finish. destruct (dirty s).
+  - rewrite gen_add_cb_is_model, fold_left_app. cbn [fold_left call_cb]. apply gen_set_cookie_is_model.
+  - rewrite fold_add_others. reflexivity.
+Qed.
+
+(* the router runs the callbacks after the response exists; with an empty queue nothing happens either way *)
+Theorem gfinish_r_is_model O o s exc n : gfinish_r O o s exc n = finish O o s exc.
+Proof.
+  rewrite <- gfinish_q_is_model with (n := n). unfold gfinish_r, gfinish_q, gen_invoke_request.
+  destruct (req_queue s (fst n) (snd n)); rewrite ?gen_process_cbs_is_model; reflexivity.
+Qed.
+
+Lemma gen_request_session_is_model {A} (f : unit -> A) : gen_request_session (Some f) = Some (f tt).
+Proof. reflexivity. Qed.
+Lemma gen_request_session_none {A} : @gen_request_session A None = None.
+Proof. reflexivity. Qed.
+
 (* ------------------------------------------------------------------ requests and chains *)
 Theorem grun_req_is_model O o last r : grun_req O o last r = run_req O o last r.
 Proof.
-  unfold grun_req, run_req. rewrite gen_init_is_model.
+  unfold grun_req, run_req. rewrite gen_request_session_is_model, gen_init_is_model.
   destruct (init O o _ _); try reflexivity.
-  rewrite grun_ops_is_model. destruct (run_ops o (rops r) s) as [s1 rs]. rewrite gfinish_is_model. reflexivity.
+  rewrite grun_ops_is_model. destruct (run_ops o (rops r) s) as [s1 rs]. rewrite gfinish_r_is_model. reflexivity.
 Qed.
 
 Theorem grun_chain_is_model O o : forall l last, grun_chain O o last l = run_chain O o last l.
